@@ -57,8 +57,11 @@ class Scripted(Exception):
 
 
 class World:
+    current: 'World | None' = None
+
     def __init__(self, kinds: list[fakeapi.Kind] | None = None, latency: float = 0.0) -> None:
         _install_patches()
+        World.current = self
         self.loop = vloop.new_loop()
         self.ctx = vloop.running(self.loop)
         self.ctx.__enter__()
@@ -213,6 +216,7 @@ def make_daemon(world: World, inc: 'Incarnation', spec: dict) -> Callable[..., A
                     raise
         finally:
             entry['ended'] = world.now
+            entry['end_order'] = world.api.next_order()
             flag_task.cancel()
 
     daemon.__name__ = spec['id']
@@ -313,6 +317,9 @@ class Incarnation:
 
     def _done(self, task: asyncio.Task) -> None:
         self.returned_at = self.world.now
+        if getattr(self, 'end_order', None) is None:
+            self.end_order = self.world.api.next_order()
+            self.end_time = self.world.now
         if self.state == 'running':
             self.state = 'exited'
         if task.cancelled():
@@ -336,6 +343,9 @@ class Incarnation:
         """SIGKILL: nothing more reaches the server; every task of the process disappears."""
         self.state = 'killed'
         self.dying = True
+        if getattr(self, 'end_order', None) is None:
+            self.end_order = self.world.api.next_order()
+            self.end_time = self.world.now
         self.session.dead = True
         for s in self.world.api.streams:
             if s.actor == self.session.actor and not s.closed:
